@@ -112,7 +112,18 @@ C17ML(n) ==
               g \in (IF GlobKind(k) THEN {Const(F, <<>>)} ELSE IF n = 3 THEN Shapes3 ELSE Graphs(F, k, FALSE)) }
           : k \in MCKinds }
 
+\* several main models from strings (without and with file_name=) interleaved with file loads
+\* on one metamodel: every string model is an entry of its own in a global repository
+StrSession == <<Load("a", "str", <<>>), Load("b", "file", <<>>), Load("b", "str", <<>>),
+                Load("a", "strfile", <<>>), Load("a", "str", <<>>), Load("a", "file", <<>>)>>
+C17Str(n) ==
+  LET files == FilesN(n)  F == Range(files) IN
+  UNION { { Mk(files, Const(F, <<>>), gl, 1, k, gr, <<>>, NoFault, StrSession, Const(F, 0), Const(F, 0)) :
+              gl \in Globs(files, k) }
+          : k \in MCKinds, gr \in MCGrepo }
+
 FamC17(dummy) ==
+  C17Str(2) \cup C17Str(3) \cup
   (IF Quick THEN C17N(1, TRUE, {0, 1, 2}) \cup C17N(2, TRUE, {0, 1, 2}) \cup C17N(3, FALSE, {1})
    ELSE C17N(1, TRUE, {0, 1, 2}) \cup C17N(2, TRUE, {0, 1, 2}) \cup C17N(3, TRUE, {0, 1, 2}))
   \cup C17ML(2) \cup C17ML(3)
@@ -147,7 +158,19 @@ C18N(n) ==
   UNION { UNION { C18One(n, k, gr, g0, gl) : g0 \in C18Graphs(n, k), gl \in Globs(FilesN(n), k) }
           : k \in MCKinds, gr \in MCGrepo }
 
-FamC18(dummy) == C18N(1) \cup C18N(2) \cup C18N(3)
+\* string main models: an earlier successful string load, a string load failing in any phase,
+\* the repaired string load, then string / file loads of the same files again
+C18Str(n) ==
+  LET files == FilesN(n)  F == Range(files)
+      gls(k) == IF GlobKind(k) THEN {Tail(files)} ELSE {files} IN
+  UNION { { Mk(files, Const(F, <<>>), gl, 1, k, gr, <<>>, Flt(ph, "a"),
+               <<Load("b", "str", <<>>), Load("a", "str", <<>>), RepairOp, Load("a", "str", <<>>),
+                 Load("b", "strfile", <<>>), Load("a", "file", <<>>), Load("b", "str", <<>>)>>,
+               Const(F, 0), Const(F, 0)) :
+              ph \in {"syntax", "unknown", "objproc", "modelproc"}, gl \in gls(k) }
+          : k \in MCKinds, gr \in MCGrepo }
+
+FamC18(dummy) == C18N(1) \cup C18N(2) \cup C18N(3) \cup C18Str(2) \cup C18Str(3)
 
 ----------------------------------------------------------------------------
 \* C27: declared x given parameters, string and file loads, every import path
